@@ -157,9 +157,42 @@ def container():
             def peek(self, n):
                 return data
 
+        class NoPeek:
+            pass
+
+        class Wrapped:  # stand-in for io.BufferedReader: the object through which the peeked bytes stay readable
+            def __init__(self, raw, *a, **k):
+                self.raw = raw
+
+            def peek(self, n):
+                return data
+
         ev = Evaluator(mod, width=64)
         fpobj = FP()
         outs = list(ev.run(list(fn.body), {"fp": fpobj}, []))
+        # the object handed on to the adapter: the peekable input itself, or - for an input without peek() - the buffered wrapper
+        # around it, on every path (an adapter given the bare decompressor could not re-read the peeked bytes, or refuses it)
+        raw = NoPeek()
+        fake_io = types.SimpleNamespace(**{k: getattr(io, k) for k in dir(io) if not k.startswith("_")})
+        fake_io.BufferedReader = Wrapped
+        outs_np = list(Evaluator(mod, width=64).run(list(fn.body), {"fp": raw, "io": fake_io}, []))
+        for which, oo in (("peekable", outs), ("no-peek", outs_np)):
+            for o in oo:
+                if o.kind != "return" or not (isinstance(o.value, tuple) and len(o.value) == 2):
+                    raise Untranslatable(f"path ends with {o.kind}")
+                s0 = z3.Solver()
+                s0.set("timeout", 60000)
+                s0.add(z3.Length(data) <= 64, *o.pc)
+                r0 = str(s0.check())
+                if r0 == "unsat":
+                    continue
+                if r0 != "sat":
+                    return {"verdict": "unknown", "detail": r0, "queries": 1, "solver_s": 0.0}
+                got = o.value[0]
+                good = (got is fpobj) if which == "peekable" else (isinstance(got, Wrapped) and got.raw is raw)
+                if not good:
+                    w = regex.model_string(s0.model(), data)
+                    return {"verdict": "sat", "model": {"peek": w.encode("latin-1", "replace").hex(), "adapter": o.value[1], "input": which}, "detail": f"for a {which} input and adapter {o.value[1]!r} the stream handed on is {type(got).__name__}, not the object the leading bytes were peeked through", "queries": 1, "solver_s": 0.0}
         magic = z3.StringVal("".join(chr(c) for c in B.RECORDSTREAM_MAGIC))
         first19 = z3.SubString(data, 0, z3.If(z3.Length(data) < 19, z3.Length(data), z3.IntVal(19)))
         spec = z3.If(z3.PrefixOf(z3.StringVal("Obj"), data), z3.StringVal("avro"), z3.If(z3.Contains(first19, magic), z3.StringVal("stream"), z3.StringVal("none")))
